@@ -16,7 +16,7 @@ open Schema
 def OptStep.ctyCovered (s : OptStep) : Bool :=
   match s.cty with
   | .none => true
-  | .strOrNone => (match s.ty with | .strOrNull => true | _ => false) && s.dflt.isNull
+  | .strOrNone => (match s.ty with | .strOrNull => true | .strUri _ => true | _ => false) && s.dflt.isNull
   | .dictOrNone => (match s.ty with | .dictOrNull => true | _ => false) && s.dflt.isNull
   | .ffItems => (match s.ty with | .forwardFor b => b | _ => false) && s.dflt.isNull
 
@@ -58,11 +58,14 @@ theorem cty_ok_of_parse {O : Oracles} {d : Dict} {s : OptStep} {v : WVal}
     simp only [Bool.and_eq_true] at hc
     obtain ⟨hty, hd⟩ := hc
     cases hsty : s.ty <;> rw [hsty] at hty <;> simp at hty
-    have hr : s.ty.isRoles = false := by rw [hsty]; rfl
-    rcases OptStep.parse_ok hwf hr h with h0 | h1
-    · rw [isDflt_eq h0, null_of_isNull hd]; rfl
-    · rw [hsty] at h1
-      simpa [OTy.valid, CTy.ok] using h1
+    all_goals
+      have hr : s.ty.isRoles = false := by rw [hsty]; rfl
+      rcases OptStep.parse_ok hwf hr h with h0 | h1
+      · rw [isDflt_eq h0, null_of_isNull hd]; rfl
+      · rw [hsty] at h1
+        first
+          | (simpa [OTy.valid, CTy.ok] using h1)
+          | (cases v <;> simp_all [OTy.valid, CTy.ok, uriOk, WVal.isNull, WVal.isStr])
   | dictOrNone =>
     rw [hcty] at hc
     simp only [Bool.and_eq_true] at hc
